@@ -93,6 +93,16 @@ def run(ctx, obl):
     shorts = [ctx.rng.random() < 0.5 for _ in specs]
     # phase 1: option names and regions from the model
     pre = core.model_run(ctx, [opt_sexp("p%d" % i, s, "nw", shorts[i], []) for i, s in enumerate(specs)])
+    # selection mode -file= (15% of the non-short cases): every struct of the file is generated into one file; used only
+    # where the model puts every embedded declaration in WF on its own
+    filemode = [(not shorts[i]) and i >= 6 and ctx.rng.random() < 0.15 for i in range(len(specs))]
+    probes = [("q%d_%d" % (i, j), i, d) for i, s in enumerate(specs) if filemode[i]
+              for j, d in enumerate(newgen.embed_decls(s)) if d.get("pkg") != "sub"]
+    if probes:
+        pm = core.model_run(ctx, [opt_sexp(pid, d, "nw", False, []) for pid, _, d in probes])
+        for pid, i, d in probes:
+            if (pm.get(pid) or {}).get("region") != "WF":
+                filemode[i] = False
     b = pkgrun.Batch(ctx)
     cases = []
     pcases = []
@@ -113,12 +123,15 @@ def run(ctx, obl):
         # multi-type run (30%): companion types first (a generic one with marks, defaults and restrictions on fields named
         # like T's); with -getset as well when that cannot collide with anything in T (the accessors force a package reload)
         cdecls, cnames, gs = [], [], []
-        if i >= 6 and ctx.rng.random() < 0.3:
+        if i >= 6 and not filemode[i] and ctx.rng.random() < 0.3:
             cdecls, cnames = newgen.companion(ctx.rng, s, "o%d" % i, same_names=not shorts[i])
             if newgen.getset_neutral(s) and ctx.rng.random() < 0.6:
                 gs = ["-getset"]
             res.hist("multi_type", "companion" + ("+getset" if gs else ""))
         args = ["new", "-opt"] + gs + (["-short"] if shorts[i] else []) + ["-type=" + ",".join(cnames + [s["name"]])]
+        if filemode[i]:
+            args = ["new", "-opt", "-file=t.go"]
+            res.hist("selection_mode", "file")
         pc = {"id": "o%d" % i, "files": {"t.go": newgen.render_file("cs", cdecls + [s])}, "runs": [{"args": args}], "oracle": {".": oracle}}
         b.add(pc)
         pcases.append(pc)
@@ -139,8 +152,9 @@ def run(ctx, obl):
         # a multi-type run writes one file per type: T's own
         own = [v for k, v in sorted(r["written"].items()) if k.endswith(".%s.go" % c["spec"]["name"].lower())]
         src = "\n".join(own if own else r["written"].values())
-        im["optnames"] = " ".join(re.findall(r"^func (\w+)(?:\[[^\]]*\])?\([^)]*\) (?:shoot\.)?Option\[", src, flags=re.M))
-        im["hasdefault"] = "true" if re.search(r"^func \(\w+ \*[^)]+\) SetDefault\(\)", src, flags=re.M) else "false"
+        tn = re.escape(c["spec"]["name"])
+        im["optnames"] = " ".join(re.findall(r"^func (\w+)(?:\[[^\]]*\])?\([^)]*\) (?:shoot\.)?Option\[%s[\[,]" % tn, src, flags=re.M))
+        im["hasdefault"] = "true" if re.search(r"^func \(\w+ \*%s(\[[^\]]*\])?\) SetDefault\(\)" % tn, src, flags=re.M) else "false"
         impl[c["id"]] = im
     model = core.model_run(ctx, [c["sexp"] for c in cases])
     for c in cases:
